@@ -103,12 +103,48 @@ def evaluate(case: Dict[str, Any]) -> Dict[str, Any]:
         # (objective switched to another convex quadratic): new deque G, matrices rebuilt by force —
         # also when the candidate pair is rejected
         force = case.get("force", True) and len(X) > 1 and r.random() < 0.25
+        any_rewrite_now = bool(force)
         if force:
             Q2, _ = np.linalg.qr(rng.standard_normal((n, n)))
             A2 = (Q2 * np.exp(rng.uniform(0, np.log(10 ** r.uniform(0, 2)), n))) @ Q2.T
             cur["A"] = 0.5 * (A2 + A2.T)
-            G = deque([cur["A"] @ (xx - center) for xx in X])
+            if case.get("filter", True) and r.random() < 0.4:
+                # the new objective is not convex along the stored path: some stored pairs lose positive curvature, and main.py
+                # passes the rewritten history through the package's filter before the forced rebuild
+                G = deque([cur["A"] @ (xx - center) + (Aneg - A) @ (xx - center) * r.choice([0.5, 1.0]) + 0.3 * np.sin(3 * (xx - center)) for xx in X])
+            else:
+                G = deque([cur["A"] @ (xx - center) for xx in X])
+            from lbfgsb.bfgsmats import make_X_and_G_respect_strong_wolfe
+            # reference: walk from the newest point back, keep a point iff it passes the curvature test against the oldest kept so far
+            kX, kG = [X[-1]], [G[-1]]
+            near_tie = False
+            for xo, go in zip(list(X)[-2::-1], list(G)[-2::-1]):
+                s_, y_ = kX[0] - xo, kG[0] - go
+                sy_, yy_ = float(s_ @ y_), float(y_ @ y_)
+                sc_ = float(np.sum(np.abs(s_ * y_)))
+                if sc_ > 0 and abs(sy_ - eps * yy_) <= 1e-10 * sc_:
+                    near_tie = True
+                if sy_ > eps * yy_:
+                    kX.insert(0, xo)
+                    kG.insert(0, go)
+            if near_tie:
+                return {"corr": None, "skipped": "tie-band", "tags": [], "prop": []}
+            try:
+                fX, fG = make_X_and_G_respect_strong_wolfe(X, G, eps, logger=None)
+            except Exception as e:
+                out["prop"].append({"what": f"the history filter raised {type(e).__name__} on a rewritten history: {e}", "key": ""})
+                break
+            X, G = deque(fX), deque(fG)
+            if vshex(list(X)) != vshex(kX) or vshex(list(G)) != vshex(kG):
+                out["prop"].append({"what": "the history kept after a rewrite of the stored gradients is not the one the curvature walk defines "
+                                            "(newest point kept; an older point kept iff it passes the test against the oldest point kept so far)",
+                                    "key": "", "detail": {"step": t, "kept": len(X), "reference": len(kX)}})
+                break
+            if len(kX) < len(refX):
+                out["tags"].append("filter_dropped_points")
+            refX = [x_.copy() for x_ in kX]
             refG = [g_.copy() for g_ in G]
+            force = len(X) > 1
             gn = (cur["A"] @ (xn - center)) if kind == "convex" else (G[-1].copy() if kind in ("zero_y", "same_x") else (G[-1] + yv) if kind == "near_orth" else G[-1] + (grad(xn, kind) - grad(X[-1], kind)))
             if kind == "same_x":
                 xn = X[-1].copy()
@@ -119,7 +155,9 @@ def evaluate(case: Dict[str, Any]) -> Dict[str, Any]:
             out["prop"].append({"what": f"update_lbfgs_matrices raised {type(e).__name__} on a valid history: {e}", "key": "",
                                 "detail": {"step": t, "stored_points": len(X)}})
             break
-        if force:
+        if any_rewrite_now and len(X) == 1:
+            mats = LBFGSB_MATRICES(n)       # main.py: no pair survived the rewrite — back to the initial matrices
+        if force or any_rewrite_now:
             out["tags"].append("forced_rebuild")
             any_force = True
         cx.append(xn)
@@ -141,7 +179,7 @@ def evaluate(case: Dict[str, Any]) -> Dict[str, Any]:
             nrej += 1
             if force:
                 out["tags"].append("forced_rebuild_with_rejected_pair")
-            if not force and (vshex(list(X)), vshex(list(G)), mats_digest(mats)) != before:
+            if not force and not any_rewrite_now and (vshex(list(X)), vshex(list(G)), mats_digest(mats)) != before:
                 out["prop"].append({"what": "a rejected pair modified the memory or the matrices", "key": "", "detail": {"step": t}})
                 break
         flags.append(accept_ref)
@@ -163,6 +201,10 @@ def evaluate(case: Dict[str, Any]) -> Dict[str, Any]:
             B = dense_bfgs(list(X), list(G))
             ev = np.linalg.eigvalsh(0.5 * (B + B.T))
             cond = float(ev[-1] / max(ev[0], 1e-300))
+            # pairs of marginal curvature (a rewritten history may keep pairs with s.y barely positive): y y'/(s.y) is then computed
+            # with a relative error eps/cos(s, y), whatever the conditioning of the final matrix
+            cosmin = float(np.min(sy / (np.linalg.norm(S, axis=1) * np.linalg.norm(Y, axis=1) + 1e-300)))
+            cond = cond * max(1.0, 1.0 / max(cosmin, 1e-300))
             if cond < 1e9:
                 if ev[0] <= 0:
                     out["prop"].append({"what": "dense BFGS matrix of the stored pairs is not positive definite", "key": ""})
@@ -204,6 +246,10 @@ def evaluate(case: Dict[str, Any]) -> Dict[str, Any]:
         B = dense_bfgs(list(X), list(G))
         ev = np.linalg.eigvalsh(0.5 * (B + B.T))
         cond = float(ev[-1] / max(ev[0], 1e-300))
+        S_ = np.diff(np.array(X), axis=0)
+        Y_ = np.diff(np.array(G), axis=0)
+        cos_ = np.einsum("ij,ij->i", S_, Y_) / (np.linalg.norm(S_, axis=1) * np.linalg.norm(Y_, axis=1) + 1e-300)
+        cond = cond * max(1.0, 1.0 / max(float(np.min(cos_)), 1e-300))
         if cond < 1e9:
             a = compact_bv(mats, v)
             tol = 1e-8 * cond * max(1.0, float(np.max(np.abs(a))))
@@ -246,7 +292,7 @@ def run(tier: str, seed: int) -> int:
              "with the curvature condition, the compact product B·v (through W, invMfactors, bmv) with the dense BFGS recursion, SPD and "
              "secant; the Lean model replays the bookkeeping bit for bit and its compact and dense products are compared with the "
              "implementation; non-trivial = at least two accepted and one rejected candidate",
-        assumptions=["comparisons of B·v use a tolerance 1e-8·cond(B); histories with cond(B) > 1e9 are skipped and counted"])
+        assumptions=["comparisons of B·v use a tolerance 1e-8·cond(B)/min cos(s, y) over the stored pairs; histories with that number > 1e9 are skipped and counted"])
 
 
 def replay(path: str) -> int:
